@@ -166,3 +166,90 @@ func snippet(src []byte, a, b int) string {
 	}
 	return s
 }
+
+var flip = map[token.Token]string{token.LSS: ">", token.GTR: "<", token.LEQ: ">=", token.GEQ: "<=", token.EQL: "==", token.NEQ: "!="}
+var negRel = map[token.Token]string{token.LSS: ">=", token.GTR: "<=", token.LEQ: ">", token.GEQ: "<", token.EQL: "!=", token.NEQ: "=="}
+
+func hasCall(e ast.Expr) bool {
+	found := false
+	ast.Inspect(e, func(n ast.Node) bool {
+		if _, ok := n.(*ast.CallExpr); ok {
+			found = true
+		}
+		return !found
+	})
+	return found
+}
+
+// Equivalents generates behaviour-preserving rewrites of the same functions (operands of a comparison swapped with the operator
+// mirrored, a comparison written as the negation of its complement, if/else branches exchanged under a negated condition).
+// A checker that reports any of them raises a false alarm: they are the counterpart of the mutants in the sensitivity audit.
+func Equivalents(path string, lines map[int]bool) ([]Mutant, error) {
+	src, err := os.ReadFile(path)
+	if err != nil {
+		return nil, err
+	}
+	fset := token.NewFileSet()
+	f, err := parser.ParseFile(fset, path, src, parser.SkipObjectResolution)
+	if err != nil {
+		return nil, err
+	}
+	off := func(p token.Pos) int { return fset.Position(p).Offset }
+	var out []Mutant
+	for _, d := range f.Decls {
+		fd, ok := d.(*ast.FuncDecl)
+		if !ok || fd.Body == nil {
+			continue
+		}
+		l0, l1 := fset.Position(fd.Pos()).Line, fset.Position(fd.End()).Line
+		if lines != nil {
+			hit := false
+			for l := range lines {
+				if l >= l0 && l <= l1 {
+					hit = true
+				}
+			}
+			if !hit {
+				continue
+			}
+		}
+		name := fd.Name.Name
+		if fd.Recv != nil && len(fd.Recv.List) == 1 {
+			name = typeName(fd.Recv.List[0].Type) + "." + name
+		}
+		add := func(pos token.Pos, op, desc string, es ...edit) {
+			out = append(out, Mutant{File: path, Func: name, Line: fset.Position(pos).Line, Op: op, Desc: desc, Content: apply(src, es...)})
+		}
+		ast.Inspect(fd.Body, func(n ast.Node) bool {
+			switch x := n.(type) {
+			case *ast.BinaryExpr:
+				if fl, ok := flip[x.Op]; ok && !(hasCall(x.X) && hasCall(x.Y)) {
+					xs, ys := string(src[off(x.X.Pos()):off(x.X.End())]), string(src[off(x.Y.Pos()):off(x.Y.End())])
+					if !strings.Contains(xs, "\n") && !strings.Contains(ys, "\n") {
+						add(x.OpPos, "EQV-SWAP", fmt.Sprintf("`%s` written as `%s %s %s`", snippet(src, off(x.Pos()), off(x.End())), ys, fl, xs),
+							edit{off(x.Pos()), off(x.End()), ys + " " + fl + " " + xs})
+					}
+				}
+			case *ast.IfStmt:
+				if be, ok := x.Cond.(*ast.BinaryExpr); ok {
+					if ng, ok := negRel[be.Op]; ok {
+						xs, ys := string(src[off(be.X.Pos()):off(be.X.End())]), string(src[off(be.Y.Pos()):off(be.Y.End())])
+						if !strings.Contains(xs, "\n") && !strings.Contains(ys, "\n") {
+							add(be.OpPos, "EQV-NEG", fmt.Sprintf("`%s` written as `!(%s %s %s)`", snippet(src, off(be.Pos()), off(be.End())), xs, ng, ys),
+								edit{off(be.Pos()), off(be.End()), "!(" + xs + " " + ng + " " + ys + ")"})
+						}
+					}
+				}
+				if eb, ok := x.Else.(*ast.BlockStmt); ok && x.Init == nil {
+					body := string(src[off(x.Body.Pos()):off(x.Body.End())])
+					els := string(src[off(eb.Pos()):off(eb.End())])
+					cond := string(src[off(x.Cond.Pos()):off(x.Cond.End())])
+					add(x.Pos(), "EQV-BRANCH", "if/else branches exchanged under the negated condition `"+snippet(src, off(x.Cond.Pos()), off(x.Cond.End()))+"`",
+						edit{off(x.Cond.Pos()), off(eb.End()), "!(" + cond + ") " + els + " else " + body})
+				}
+			}
+			return true
+		})
+	}
+	return out, nil
+}
